@@ -29,13 +29,18 @@ import props  # noqa: E402
 CACHE = os.path.join(VERIF, ".cache")
 LEAN = os.path.join(VERIF, "lean")
 HARNESS = os.path.join(VERIF, "harness")
-HARNESS_BIN = os.path.join(CACHE, "target", "debug", "verif-harness")
+# coverage mode (tools/coverage.py): an instrumented build in its own target directory; no evidence is written
+COV = bool(os.environ.get("VERIF_COVERAGE"))
+TSUF = "-cov" if COV else ""
+HARNESS_BIN = os.path.join(CACHE, "target" + TSUF, "debug", "verif-harness")
 FFI_HARNESS = os.path.join(VERIF, "harness-ffi")
-FFI_BIN = os.path.join(CACHE, "target-ffi", "debug", "verif-harness-ffi")
+FFI_BIN = os.path.join(CACHE, "target-ffi" + TSUF, "debug", "verif-harness-ffi")
 DRIVER_BIN = os.path.join(LEAN, ".lake", "build", "bin", "rodbus_model")
 ALLOWED_AXIOMS = {"propext", "Classical.choice", "Quot.sound"}
 FORBIDDEN = re.compile(r"\b(sorry|admit|native_decide|bv_decide|implemented_by|unsafe)\b|^\s*axiom\s|maxHeartbeats\s+0")
 ENV = dict(os.environ, CARGO_NET_OFFLINE="true")
+if COV:
+    ENV["LLVM_PROFILE_FILE"] = os.path.join(CACHE, "cov", "%p-%m.profraw")
 
 
 def log(msg):
@@ -180,8 +185,13 @@ def proof_obligations(pid, cfg, tier):
 
 def cargo_build(which):
     """the target directory is given explicitly so that a copy of /verif builds into its own cache"""
-    env = dict(ENV, CARGO_TARGET_DIR=os.path.join(CACHE, "target-ffi" if which == "ffi" else "target"))
-    p = subprocess.run(["cargo", "build", "--offline"], cwd=FFI_HARNESS if which == "ffi" else HARNESS,
+    env = dict(ENV, CARGO_TARGET_DIR=os.path.join(CACHE, ("target-ffi" if which == "ffi" else "target") + TSUF))
+    cmd = ["cargo", "build", "--offline"]
+    if COV:
+        cmd = ["cargo", "+nightly", "build", "--offline"]
+        env["RUSTFLAGS"] = "-C instrument-coverage"
+        env["LLVM_PROFILE_FILE"] = os.path.join(CACHE, "cov", "build", "%p-%m.profraw")   # build scripts, proc macros
+    p = subprocess.run(cmd, cwd=FFI_HARNESS if which == "ffi" else HARNESS,
                        stdout=subprocess.PIPE, stderr=subprocess.STDOUT, text=True, env=env)
     return p.returncode, p.stdout
 
@@ -527,7 +537,7 @@ def main():
         "assumptions": cfg.get("assumptions", []),
         "wall_s": round(wall, 1), "violations": violations,
     }
-    if not args.replay:
+    if not args.replay and not COV:
         json.dump(ev, open(os.path.join(VERIF, "evidence", f"{pid}.json"), "w"), indent=1)
     log(f"{pid} {tier}: obligations {ob['discharged']}/{ob['obligations']}, cases {evaluations}, "
         f"nontrivial {len(nontrivial)}, disagreements {len(disagreements)}, oracle failures "
